@@ -1,6 +1,7 @@
 """Shared machinery for /verif checks: environment, scratch space, building garble from /repo's
 current working tree (with add-only `//go:build verif` oracle files injected into a scratch copy),
 the stub `go`, running Coq, evidence and VIOLATION reporting."""
+import threading
 import atexit, fcntl, hashlib, json, os, random, re, shutil, subprocess, sys, tempfile, time
 
 VERIF = os.path.dirname(os.path.dirname(os.path.abspath(__file__)))
@@ -163,12 +164,15 @@ class Stub:
         if not os.path.exists(dst):
             shutil.copy(stub, dst)
         self.n = 0
+        self._lock = threading.Lock()
 
     def env(self, conf, extra=None):
         """conf: dict(list=[pkg records], buildid=str, goversion=str, build_exit=int, list_exit=int, list_stderr=str)"""
-        self.n += 1
-        cpath = os.path.join(self.dir, "conf-%d-%d.json" % (os.getpid(), self.n))
-        lpath = os.path.join(self.dir, "log-%d-%d.jsonl" % (os.getpid(), self.n))
+        with self._lock:      # checks call this from worker threads: the counter must not be shared between two configurations
+            self.n += 1
+            n = self.n
+        cpath = os.path.join(self.dir, "conf-%d-%d.json" % (os.getpid(), n))
+        lpath = os.path.join(self.dir, "log-%d-%d.jsonl" % (os.getpid(), n))
         conf = dict(conf)
         conf.setdefault("goroot", self.root)
         with open(cpath, "w") as f:
@@ -570,3 +574,25 @@ def gen_sites(outdir):
     with open(os.path.join(outdir, "Sites.v"), "w") as fh:
         fh.write(header + body)
     return True, ""
+
+
+def evict_cache_entries(root, keep_key, keep=7, min_age_s=1800):
+    """Keeps a keyed cache directory small without pulling entries from under a concurrent check:
+    oldest first, never an entry whose lock another process holds, never one touched in the last
+    half hour (callers keep reading an entry after the function that built it has returned)."""
+    others = sorted((e for e in os.listdir(root) if os.path.isdir(os.path.join(root, e)) and e != keep_key),
+                    key=lambda e: os.path.getmtime(os.path.join(root, e)))
+    while len(others) > keep:
+        e = others.pop(0)
+        if time.time() - os.path.getmtime(os.path.join(root, e)) < min_age_s:
+            break
+        try:
+            lk = open(os.path.join(root, e + ".lock"), "w")
+            fcntl.flock(lk, fcntl.LOCK_EX | fcntl.LOCK_NB)
+        except OSError:
+            continue
+        try:
+            shutil.rmtree(os.path.join(root, e), ignore_errors=True)
+        finally:
+            fcntl.flock(lk, fcntl.LOCK_UN)
+            lk.close()
